@@ -8,7 +8,10 @@ PW = [0, 0, 0.3, 0.5, 1, 1.3, 2, 2 ** 0.5, 1.0 / 3.0, 3, 0.7, 5]
 CW = [0, 0, 0, 0.5, 1, 2, 5, 8, 1.3, 0.3, 12]
 
 
-def build(t, nice_only=False, kinds=("continuous", "slotted")):
+HOLD = [0, 0, 0, 0, 0.3, 1, 2, 0.5]
+
+
+def build(t, nice_only=False, kinds=("continuous", "slotted"), holds=False):
     kind_i, g_i, cap, d_i, acc, n_items, pmode, pw, cmode, cw = t
     kind = kinds[kind_i % len(kinds)]
     if kind == "continuous":
@@ -33,14 +36,18 @@ def build(t, nice_only=False, kinds=("continuous", "slotted")):
         cons = [CW[cw[i % len(cw)] % len(CW)] if i % 2 else 0 for i in range(n)]
     else:
         cons = [CW[cw[i % len(cw)] % len(CW)] for i in range(n)]
-    return {"conv": conv, "producer": prod, "consumer": cons, "T": 400.0}
+    case = {"conv": conv, "producer": prod, "consumer": cons, "T": 400.0}
+    if holds and (pmode // 4) % 2 == 1:
+        # loading time: the producer holds its granted admission for a while before it puts the item
+        case["hold"] = [HOLD[(pw[i % len(pw)] + cw[i % len(cw)]) % len(HOLD)] for i in range(n)]
+    return case
 
 
-def cases(nice_only=False, kinds=("continuous", "slotted")):
+def cases(nice_only=False, kinds=("continuous", "slotted"), holds=False):
     return st.tuples(st.integers(0, 1), st.integers(0, 63), st.integers(0, 11), st.integers(0, 7), st.integers(0, 1),
                      st.integers(0, 17), st.integers(0, 7), st.lists(st.integers(0, 23), min_size=4, max_size=10),
                      st.integers(0, 9), st.lists(st.integers(0, 21), min_size=4, max_size=10)).map(
-        lambda t: build(t, nice_only, kinds))
+        lambda t: build(t, nice_only, kinds, holds))
 
 
 def shrink_candidates(case):
@@ -48,8 +55,14 @@ def shrink_candidates(case):
     n = len(p)
     if n > 1:
         for i in range(n):
-            yield dict(case, producer=p[:i] + p[i + 1:], consumer=c[:len(c) - 1] if len(c) >= n else c)
-        yield dict(case, producer=p[:-1], consumer=c[:-1] if len(c) >= n else c)
+            d2 = dict(case, producer=p[:i] + p[i + 1:], consumer=c[:len(c) - 1] if len(c) >= n else c)
+            if case.get("hold"):
+                d2["hold"] = case["hold"][:i] + case["hold"][i + 1:]
+            yield d2
+        d2 = dict(case, producer=p[:-1], consumer=c[:-1] if len(c) >= n else c)
+        if case.get("hold"):
+            d2["hold"] = case["hold"][:-1]
+        yield d2
     for i, w in enumerate(p):
         if w not in (0, 1):
             yield dict(case, producer=p[:i] + [1] + p[i + 1:])
@@ -59,6 +72,13 @@ def shrink_candidates(case):
             yield dict(case, consumer=c[:i] + [0] + c[i + 1:])
             if w != 1:
                 yield dict(case, consumer=c[:i] + [1] + c[i + 1:])
+    if case.get("hold"):
+        c = dict(case)
+        c.pop("hold")
+        yield c
+        for i, w in enumerate(case["hold"]):
+            if w != 0:
+                yield dict(case, hold=case["hold"][:i] + [0] + case["hold"][i + 1:])
     conv = case["conv"]
     if conv["kind"] == "continuous" and (conv["L"], conv["il"], conv["v"]) != (3, 1, 1):
         yield dict(case, conv=dict(conv, L=3, il=1, v=1))
